@@ -16,6 +16,18 @@ pub struct CursorFacts {
 pub fn check_cursors(input: &str, cfg: &Cfg, cursors: &[u32]) -> Result<CursorFacts, Failure> {
     let plain = format_with(cfg, input);
     let (out, res) = format_with_cursors(cfg, input, cursors);
+    check_cursor_results(input, cfg, cursors, &plain, out, res)
+}
+
+/// The oracle proper, on a result obtained through the library or through the binary.
+pub fn check_cursor_results(
+    input: &str,
+    cfg: &Cfg,
+    cursors: &[u32],
+    plain: &str,
+    out: String,
+    res: Vec<u32>,
+) -> Result<CursorFacts, Failure> {
     if out != plain {
         return Err(Failure::new(
             "text-changed",
@@ -113,7 +125,7 @@ impl Prop for C15Prop {
         "C15"
     }
     fn rule(&self) -> String {
-        "Streams (proptest tapes): any = soup / arbitrary UTF-8 / mutated seeds / directive-heavy / nested inputs; seeds = repository seed programs verbatim or re-spaced; boundary = multi-line comments / strings with lines of 65 535 and 65 536 bytes; prog = grammar-generated programs in random layouts; each x generated configuration x 1-8 cursors drawn from {0, end, end+1, u32::MAX, every char boundary} with emphasis on token starts / interiors / ends. Oracle: (1) the text formatted with cursors equals the text formatted without; (2) every result <= output length and on a char boundary; (3) a cursor at content offset o of a token whose text is byte-identical in the output (tokens of both sides from the independent reference scanner, compared only when the two token lists line up) is reported at that token's output start + o, either neighbour being accepted where two tokens touch; (4) cursors beyond the end of the input map to the end of the output (a cursor exactly at the end is covered by clause 3: it is at the end of the last token). Non-trivial = at least one cursor strictly inside an unchanged token whose offset changed; distinct by hash of (input, configuration, cursors)."
+        "Streams (proptest tapes): any = soup / arbitrary UTF-8 / mutated seeds / directive-heavy / nested inputs; seeds = repository seed programs verbatim or re-spaced; boundary = multi-line comments / strings with lines of 65 535 and 65 536 bytes; prog = grammar-generated programs in random layouts; each x generated configuration x 1-8 cursors drawn from {0, end, end+1, u32::MAX, every char boundary} with emphasis on token starts / interiors / ends. Oracle: (1) the text formatted with cursors equals the text formatted without; (2) every result <= output length and on a char boundary; (3) a cursor at content offset o of a token whose text is byte-identical in the output (tokens of both sides from the independent reference scanner, compared only when the two token lists line up) is reported at that token's output start + o, either neighbour being accepted where two tokens touch; (4) cursors beyond the end of the input map to the end of the output (a cursor exactly at the end is covered by clause 3: it is at the end of the last token). Stream cli = the same four clauses on what the binary reports: `pasfmt --cursor a,b,c` on stdin or on one file (exactly one `CURSOR=<list>` line on stderr, list parsed and fed to the oracle; stdout / the file must hold the text formatted without --cursor), on two files (both formatted as without the option), and with --mode=check (exit status unaffected by the cursors). Non-trivial = at least one cursor strictly inside an unchanged token whose offset changed; distinct by hash of (input, configuration, cursors)."
             .into()
     }
     fn assumptions(&self) -> Vec<String> {
@@ -132,6 +144,8 @@ impl Prop for C15Prop {
             // multi-line literals that get re-indented, cursors inside them (C12's generator)
             Stream::random("lits", if q { 3000 } else { 40000 }, 300),
             Stream::random("lits_chk", if q { 1000 } else { 10000 }, 300).chk(),
+            // the same oracle on what the binary reports (`--cursor`, the CURSOR= line on stderr)
+            Stream::random("cli", if q { 300 } else { 3000 }, 600).shards(if q { 4 } else { 8 }),
         ];
         v.extend(crate::props::wf::wf_streams(tier, 1));
         v
@@ -155,6 +169,22 @@ impl Prop for C15Prop {
             "lits" => {
                 let mut c = crate::props::c12::C12.generate("lits", t)?;
                 c.cursors = gen_token_cursors(t, &c.input);
+                return Some(c);
+            }
+            "cli" => {
+                let via = *t.pick(&["stdin", "file", "two-files", "stdin-check", "file", "stdin"]);
+                let mut c = match t.below(4) {
+                    0 => crate::props::c12::C12.generate("lits", t)?,
+                    1 => {
+                        let (s, g) = common::gen_any_input(t, 40);
+                        Case::text(g, s, cfg)
+                    }
+                    _ => crate::props::wf::wf_generate("prog", t, true)?,
+                };
+                // NUL cannot be in a file the binary decodes as text without being text; keep it
+                c.gen = "cli".into();
+                c.cursors = gen_token_cursors(t, &c.input);
+                c.extra = serde_json::json!({"cli": via});
                 return Some(c);
             }
             "boundary" => {
@@ -191,6 +221,9 @@ impl Prop for C15Prop {
                 return Outcome::Discard("cursor-not-on-boundary");
             }
         }
+        if let Some(via) = case.extra.get("cli").and_then(|v| v.as_str()) {
+            return check_cli(case, via, ctx);
+        }
         match check_cursors(&case.input, &case.cfg, &case.cursors) {
             Err(f) => Outcome::Fail(f),
             Ok(f) => {
@@ -199,6 +232,122 @@ impl Prop for C15Prop {
                 ctx.class_if(f.inside_moved, "cursor-inside-token-moved");
                 Outcome::Pass { nontrivial: f.inside_moved }
             }
+        }
+    }
+}
+
+/// The binary: `--cursor a,b,c` prints one line `CURSOR=<list>` on stderr (stdin or one file);
+/// the formatted text must be what it is without `--cursor`, and the reported list must satisfy
+/// the same oracle as the library's. With two files the cursors cannot be tracked; the files
+/// must still be formatted as without the option.
+fn check_cli(case: &Case, via: &str, ctx: &mut Ctx) -> Outcome {
+    use crate::engine::cli;
+    cli::check_no_config_above();
+    if case.input.starts_with('\u{feff}') {
+        return Outcome::Discard("input-starts-with-bom");
+    }
+    let plain = format_with(&case.cfg, &case.input);
+    let sc = cli::Scratch::new();
+    let list = case.cursors.iter().map(|c| c.to_string()).collect::<Vec<_>>().join(",");
+    let mut args = case.cfg.to_cli();
+    args.push("-Cencoding=utf-8".into());
+    args.push(format!("--cursor={list}"));
+    let parse = |stderr: &str| -> Result<Option<Vec<u32>>, Failure> {
+        let lines: Vec<&str> = stderr.lines().filter(|l| l.starts_with("CURSOR=")).collect();
+        match lines.len() {
+            0 => Ok(None),
+            1 => {
+                let mut v = vec![];
+                for p in lines[0]["CURSOR=".len()..].split(',') {
+                    match p.trim().parse::<u32>() {
+                        Ok(n) => v.push(n),
+                        Err(_) => {
+                            return Err(Failure::new("cli-cursor-line", format!("unparsable {:?}", lines[0])).fact("via-cli"))
+                        }
+                    }
+                }
+                Ok(Some(v))
+            }
+            n => Err(Failure::new("cli-cursor-line", format!("{n} CURSOR= lines on stderr")).fact("via-cli")),
+        }
+    };
+    ctx.class(&format!("cli:{via}"));
+    let (out, res): (String, Option<Vec<u32>>) = match via {
+        "stdin" | "stdin-check" => {
+            if via == "stdin-check" {
+                args.push("--mode=check".into());
+            }
+            let r = cli::run_pasfmt(&args, &sc.dir, Some(case.input.as_bytes()), &[]);
+            if via == "stdin-check" {
+                // check mode prints no text; exit status must not depend on the cursors
+                let want_ok = plain == case.input;
+                if r.code.is_none() || (r.code == Some(0)) != want_ok {
+                    return Outcome::Fail(
+                        Failure::new(
+                            "cli-check-mode",
+                            format!("--mode=check with --cursor exits {:?}; the input is {}formatted", r.code, if want_ok { "" } else { "not " }),
+                        )
+                        .fact("via-cli"),
+                    );
+                }
+                return Outcome::Pass { nontrivial: false };
+            }
+            if !r.ok() {
+                return Outcome::Fail(Failure::new("cli-exit", format!("exit {:?}: {}", r.code, short(&r.stderr_text(), 200))).fact("via-cli"));
+            }
+            let Ok(out) = String::from_utf8(r.stdout.clone()) else {
+                return Outcome::Fail(Failure::new("text-changed", "stdout is not UTF-8".into()).fact("via-cli"));
+            };
+            match parse(&r.stderr_text()) {
+                Ok(v) => (out, v),
+                Err(f) => return Outcome::Fail(f),
+            }
+        }
+        "file" => {
+            let p = sc.write("u.pas", case.input.as_bytes());
+            let mut a = args.clone();
+            a.push("u.pas".into());
+            let r = cli::run_pasfmt(&a, &sc.dir, None, &[]);
+            if !r.ok() {
+                return Outcome::Fail(Failure::new("cli-exit", format!("exit {:?}: {}", r.code, short(&r.stderr_text(), 200))).fact("via-cli"));
+            }
+            let Ok(out) = String::from_utf8(std::fs::read(&p).unwrap_or_default()) else {
+                return Outcome::Fail(Failure::new("text-changed", "file is not UTF-8 afterwards".into()).fact("via-cli"));
+            };
+            match parse(&r.stderr_text()) {
+                Ok(v) => (out, v),
+                Err(f) => return Outcome::Fail(f),
+            }
+        }
+        _ => {
+            let p1 = sc.write("u.pas", case.input.as_bytes());
+            let p2 = sc.write("v.pas", b"a  :=  1 ;\n");
+            let mut a = args.clone();
+            a.push("u.pas".into());
+            a.push("v.pas".into());
+            let r = cli::run_pasfmt(&a, &sc.dir, None, &[]);
+            if !r.ok() {
+                return Outcome::Fail(Failure::new("cli-exit", format!("exit {:?}: {}", r.code, short(&r.stderr_text(), 200))).fact("via-cli"));
+            }
+            let o1 = std::fs::read(&p1).unwrap_or_default();
+            let o2 = std::fs::read(&p2).unwrap_or_default();
+            let plain2 = format_with(&case.cfg, "a  :=  1 ;\n");
+            if o1 != plain.as_bytes() || o2 != plain2.as_bytes() {
+                return Outcome::Fail(
+                    Failure::new("text-changed", "two files formatted with --cursor differ from the formatting without".into()).fact("via-cli"),
+                );
+            }
+            return Outcome::Pass { nontrivial: false };
+        }
+    };
+    let Some(res) = res else {
+        return Outcome::Fail(Failure::new("cli-cursor-line", "no CURSOR= line on stderr".into()).fact("via-cli"));
+    };
+    match check_cursor_results(&case.input, &case.cfg, &case.cursors, &plain, out, res) {
+        Err(f) => Outcome::Fail(f.fact("via-cli")),
+        Ok(f) => {
+            ctx.class_if(f.inside_moved, "cli:cursor-inside-token-moved");
+            Outcome::Pass { nontrivial: f.inside_moved }
         }
     }
 }
